@@ -39,3 +39,24 @@ package controllerv1
 //@     invariant forall j int :: 0 <= j && j <= rangeindex && j < len(promises) ==> promises[j].err == nil
 //@     invariant len(promises) % 5 == 0
 //@     modifies nothing
+
+// Answering a failed request: unless the client itself went away (the error text
+// STARTS with "connection reset by peer": nobody is left to read a status), an
+// error ends in an explicitly written status - never in the implicit 200 that
+// net/http sends when the handler returns without writing one.
+//@ func github.com/metrico/qryn/writer/utils/errors.Unwrap
+//@   modifies nothing
+//@ iface (github.com/metrico/qryn/writer/utils/errors.IQrynError).GetCode()
+//@   modifies nothing
+//@ iface (github.com/metrico/qryn/writer/utils/errors.IQrynError).Error()
+//@   modifies nothing
+//@ func (*github.com/metrico/qryn/writer/utils/errors.UnMarshalError).GetCode
+//@   modifies nothing
+//@ func (*github.com/metrico/qryn/writer/utils/errors.UnMarshalError).Error
+//@   modifies nothing
+//@ func writeErrorResponse [C01]
+//@   modifies statusWrites, lastStatus
+//@   ensures statusWrites == old(statusWrites) + 1 && lastStatus == statusCode
+//@ func ErrorHandler [C01]
+//@   modifies statusWrites, lastStatus
+//@   ensures answered-unless-client-hung-up: statusWrites == old(statusWrites) + 1 || hasPrefix(errText(err), "connection reset by peer")
